@@ -22,8 +22,9 @@ theorem provision_rollback_sees_every_error :
     `load` — "started" is emitted after the start loop and BEFORE finishSettingUp, whose failure ends in
     unsyncedStop of the new configuration; `endOuts` — "stopping", then the apps' Stop, then the modules' Cleanup;
     `stop` — caddy.Stop cleans up BEFORE it empties currentCtx and TLS.Cleanup takes whatever tls app
-    caddy.ActiveContext() has for its successor, with no check that it is not itself (the known finding; a
-    repair of either side changes one of these strings, and `Std.stop` has to become `Std.stopW`);
+    caddy.ActiveContext() has for its successor UNLESS that is itself (`nextTLS.(*TLS) != t`, /repo 985d095 —
+    `Std.stopW`; dropping the check again changes this string and brings back `Std.stop`, the old code of
+    cert_cache_function_of_running_old_code_fails);
     `validate` — run, cancel, defaults back; `cacheAdd` / `tlsCleanup` — every certificate that is cached is
     remembered in t.loaded unconditionally (self-test C01-tls-untagged-certificates-not-tracked breaks this line) -/
 theorem std_apps_order_matches_source :
@@ -32,7 +33,7 @@ theorem std_apps_order_matches_source :
     Gen.stopOrder = ["unsyncedStop", "currentCtx=Context{}"] ∧
     Gen.validateOrder = ["run", "cancelFunc", "restoreDefaultStorage", "restoreDefaultLogger"] ∧
     Gen.tlsCleanupSuccessorLookup = "caddy.ActiveContext().AppIfConfigured(\"tls\")" ∧
-    Gen.tlsCleanupSuccessorCond = "err==nil&&nextTLS!=nil" ∧
+    Gen.tlsCleanupSuccessorCond = "err==nil&&nextTLS!=nil&&nextTLS.(*TLS)!=t" ∧
     Gen.tlsProvisionCacheBlock = ["assign:err<-magic.CacheUnmanagedTLSCertificate", "if:err!=nil", "assign:t.loaded[hash]<-\"\""] := by
   decide
 
